@@ -30,7 +30,14 @@ pub struct Args {
     pub scale: f64,
 }
 
+// allocation budget (vcore::alloc): a runaway allocation of the code under test aborts this process with a marker line
+// that the driver turns into a verdict; not under Miri (the interpreter has its own memory accounting)
+#[cfg(not(miri))]
+#[global_allocator]
+static ALLOC: vcore::alloc::Budget = vcore::alloc::Budget;
+
 fn main() {
+    vcore::alloc::init();
     let mut a = Args {
         id: String::new(),
         tier: std::env::var("VERIF_TIER").unwrap_or_else(|_| "quick".into()),
@@ -78,6 +85,10 @@ fn main() {
         std::process::exit(code);
     }
     props::run(&a, &mut report);
+    report.extra.insert(
+        "allocation_budget".into(),
+        serde_json::json!({"per_thread_budget_bytes": vcore::alloc::limit_bytes(), "largest_live_bytes_of_one_thread": vcore::alloc::peak_bytes()}),
+    );
     if a.leg.is_some() {
         // a sanitizer / auxiliary leg: print the verdict lines, but leave the evidence file to the main leg
         let code = report.finish_leg(&out, &known, a.leg.as_deref().unwrap());
